@@ -263,7 +263,7 @@ func (ci compInfo) scope(fm bool) []sv {
 // useSpec is one <slot> position in a component body.
 type useSpec struct {
 	name     string
-	place    string // wrap | loop | bare
+	place    string // wrap | loop | bare | slotfor | slotfor1
 	fallback bool
 }
 
@@ -310,6 +310,19 @@ func (b *builder) useNodes(ci compInfo, p string, u useSpec, fm bool) []Node {
 			li.Kids = append([]Node{{K: "el", Tag: "span", M: b.id(p + "s"), Kids: []Node{{K: "text", T: []Part{{X: idx}}}}}}, li.Kids...)
 		}
 		return []Node{{K: "el", Tag: "ul", M: b.id(p + "u"), Kids: []Node{li}}}
+	case "slotfor", "slotfor1":
+		// v-for written on the <slot> element itself, in the (index, item) or the item-only form
+		idx, it := fmt.Sprintf("ci%d", ci.idx), fmt.Sprintf("ce%d", ci.idx)
+		inner := append([]sv{{it, ci.elem, true}, {idx, "i", true}}, scope...)
+		f := &For{Idx: idx, Item: it, List: ci.items()}
+		nX := idx
+		if u.place == "slotfor1" {
+			f.Idx, nX = "", ci.num()
+			inner = append([]sv{{it, ci.elem, true}}, scope...)
+		}
+		sl := b.slotNode(ci, p, u, inner, it, nX, it+".badge")
+		sl.For = f
+		return []Node{{K: "el", Tag: "section", M: b.id(p + "v"), Kids: []Node{sl}}}
 	case "bare":
 		// the slot sits directly between two sibling elements of the component root
 		return []Node{
